@@ -147,6 +147,12 @@ func (r *Runner) runProc(p *parProc) string {
 		default:
 			res, _ = r.Step([]any{"AppCheckpoint", argStr(p.op, 1, "PASSIVE")}, false)
 		}
+		// the committed state joins the ledger here, still under appMu: commit order = ledger order
+		if app, _, _, _, err := AppContent(r.app, r.dict); err == nil {
+			r.freeLogMu.Lock()
+			r.appLog = append(r.appLog, app)
+			r.freeLogMu.Unlock()
+		}
 		return res
 	}
 	return "skip"
